@@ -19,7 +19,8 @@ describe(
     "resubmit-jobs first re-opens it); the flag is set under `assert not is_complete`; the submitter role is released on "
     "every normal exit of the five role-holding commands (otherwise no later round can ever act); the crashed-round marker "
     "is removed on every normal path of a round (otherwise the next round refuses for ever); the batch config carries the "
-    "remaining, not the original, blockers (otherwise a node waits for ever).",
+    "remaining, not the original, blockers (otherwise a node waits for ever)."
+    " A candidate refused by a full batch stays in the remainder (the cursor is rewound on the refusal path); the forced-completion branch depends on nothing but 'not done' and 'no active id' (plus the FAKE exemption).",
     ["role exclusivity (C10)", "a finishing node spawns try-submit-jobs (cli/run_jobs.py, checked as a spawn site)"],
     "liveness ('after finitely many rounds'), 'one try-submit-jobs either hands a batch or completes', and 'a round leaves an unblocked job "
     "unsubmitted only at the max-nodes limit' quantify over histories and over the cursor arithmetic of batch construction; only the necessary conditions above are checked.",
@@ -79,6 +80,11 @@ def completion_decision(ctx, r, rid):
         r.check(no_active, "forced completion only when no HPC batch id is active", key_of(fn, "forced completion guard"), fn.loc(n.ast),
                 "completion is forced although batches are still active: their jobs are reported missing while they run, and their results arrive after completion",
                 "once no batch remains active", guards=sorted(("" if p else "not ") + f for f, p in forms))
+        extra = sorted({("" if p else "not ") + f for f, p in forms if not (f == var or "hpc_job_ids" in f or "HpcType.FAKE" in f or "are_all_jobs_complete" in f)})
+        r.check(not extra, "forced completion depends on nothing else", key_of(fn, f"forced completion also requires {extra}"), fn.loc(n.ast),
+                f"completion is forced only if additionally {extra}: with no batch active and that condition false (e.g. a job that can never be submitted because it waits for a missing job) "
+                "every later round returns 'not complete' and the submission never completes", "The submission still reaches completion after the documented try-submit-jobs",
+                guards=sorted(("" if p else "not ") + f for f, p in forms))
         fake = [f for f, p in forms if "HpcType.FAKE" in f]
         r.check(all(("==" in f) for f in fake), "only the FAKE scheduler is exempt", key_of(fn, "fake exemption"), fn.loc(n.ast), f"forced completion exemption changed: {fake}")
     # hpc_job_ids read here is the list persisted by this round's status update: _is_complete is called after _update_status
@@ -89,7 +95,15 @@ def completion_decision(ctx, r, rid):
         r.check(bool(upd) and dominated_by(ctx, run, n, upd, NORMAL_KINDS), "the decision is taken after this round's status update", key_of(run, "decision before update"), run.loc(n.stmt),
                 "the completion decision reads the active ids / job states of the previous round")
     rets_run = [n for n in ctx.cfg(run).nodes if n.kind == "stmt" and isinstance(n.ast, ast.Return)]
-    okr = any(isinstance(n.ast.value, ast.Name) and (ctx.rd(run).unique_def(n, n.ast.value.id) or (None, None))[1] is not None and "_is_complete()" in ctx.src(ctx.rd(run).unique_def(n, n.ast.value.id)[1]) for n in rets_run if n.ast.value is not None)
+    def _is_decision(n):
+        v = n.ast.value
+        if isinstance(v, ast.Name):
+            ud = ctx.rd(run).unique_def(n, v.id)
+            v = ud[1] if ud else None
+        site = ctx.cg.site_of(run, v) if isinstance(v, ast.Call) else None
+        return site is not None and site.calls_short(ctx.ix, "HpcSubmitter._is_complete")
+
+    okr = any(_is_decision(n) for n in rets_run if n.ast.value is not None)
     r.check(okr, "HpcSubmitter.run returns that decision", key_of(run, "returns decision"), run.loc(), "HpcSubmitter.run does not return the result of _is_complete()")
 
 
@@ -252,3 +266,64 @@ def c05_10(ctx, r):
     from .c04 import c04_6
 
     c04_6(ctx, r)
+
+
+def refused_candidate_stays(ctx, r, rid):
+    """A candidate that a full batch refuses (try_append() False) must be offered to the next batch of the same
+    round.  With a cursor-based remainder (`available[cursor + 1:]`) that means the refusal path rewinds the cursor
+    below the refused job; a remainder that is filtered only by the placed-names set needs nothing."""
+    from .c01 import _try_append_test
+
+    mb = ctx.fn("HpcSubmitter._make_batch", rid)
+    cfg = ctx.cfg(mb)
+    site, ta = _try_append_test(ctx, mb)
+    rets = [n for n in cfg.nodes if n.kind == "stmt" and isinstance(n.ast, ast.Return)]
+    if len(rets) != 1 or not isinstance(rets[0].ast.value, ast.Tuple) or len(rets[0].ast.value.elts) != 2:
+        raise AnalysisError(rid, "_make_batch does not return (batch, remainder)")
+    rem = rets[0].ast.value.elts[1]
+    defs = [ctx.rd(mb).defs_at[d].get(rem.id) for d in ctx.rd(mb).reaching(rets[0], rem.id)] if isinstance(rem, ast.Name) else [rem]
+    cursors = set()
+    for d in defs:
+        if not isinstance(d, ast.AST):
+            raise AnalysisError(rid, "remainder definition is not an expression")
+        for x in ast.walk(d):
+            if isinstance(x, ast.Subscript) and isinstance(x.slice, ast.Slice) and x.slice.lower is not None:
+                cursors |= {y.id for y in ast.walk(x.slice.lower) if isinstance(y, ast.Name)}
+    if not cursors:
+        r.ok("the remainder is not cut at a cursor: a refused candidate is not in the placed set, so it stays", defs=[ctx.src(d)[:80] for d in defs])
+        return
+    rewinds = [n for n in cfg.nodes if n.kind == "stmt" and isinstance(n.ast, ast.AugAssign) and isinstance(n.ast.op, ast.Sub) and isinstance(n.ast.target, ast.Name) and n.ast.target.id in cursors]
+    blocked = {n.id for n in rewinds}
+    loops = ctx.enclosing(mb, site.node, (ast.For, ast.While))
+    if not loops:
+        raise AnalysisError(rid, "try_append is not inside the candidate scan")
+    inner = loops[0]
+    head = [n for n in cfg.nodes if n.kind == "for" and n.ast is inner]
+    seen, stack, escaped = set(), [d for d, k, _ in ta.succ if k == "F"], None
+    while stack:
+        n = stack.pop()
+        if n.id in seen or n.id in blocked:
+            continue
+        seen.add(n.id)
+        st = n.stmt if n.stmt is not None else n.ast
+        inside = st is not None and st is not inner and any(l is inner for l in ctx.enclosing(mb, st, (ast.For, ast.While)))
+        if (head and n is head[0]) or not inside:
+            escaped = n
+            break
+        stack.extend(d for d, k, _ in n.succ if k in NORMAL_KINDS)
+    r.check(escaped is None, "the refusal path moves the remainder cursor back below the refused job", key_of(mb, "refused candidate dropped from the remainder"), mb.loc(site.node),
+            f"when try_append() refuses a job (the batch is full) the scan continues / ends without rewinding `{sorted(cursors)[0]}`: the remainder `{'; '.join(ctx.src(d)[:60] for d in defs if ctx.src(d) != '[]')}` starts "
+            "behind the refused job, so it is not offered to the next batch of this round although its blockers have outcomes and the node limit is not reached",
+            "A submitter round leaves a job whose blockers all have outcomes unsubmitted only when the max-nodes limit is reached")
+
+
+@rule(P, "C05.12", "T3", "a candidate refused by a full batch is offered to the next batch of the same round", min_obligations=1)
+def c05_12(ctx, r):
+    refused_candidate_stays(ctx, r, "C05.12")
+
+
+@rule(P, "C05.13", "T9+T1", "a batch counts as ended only if the scheduler says finished or absent (else completion is forced under running batches)", min_obligations=6)
+def c05_13(ctx, r):
+    from .c18 import c18_3
+
+    c18_3(ctx, r)
